@@ -14,3 +14,50 @@ Theorem c05_junction_glyph : forall a b,
   match a, b with false, false => 9472 | true, false => 9524 | false, true => 9516 | true, true => 9532 end.
 Proof. exact seg_char_of. Qed.
 Print Assumptions c05_junction_glyph.
+
+From H2T Require Import Proofs.TableProof.
+From Coq Require Import Permutation.
+(* After ANY sequence of joins on a fresh border, position x shows exactly the junction for
+   (x was joined from above, x was joined from below); the border is as long as its width or
+   the furthest join. *)
+Theorem c05_border_join_spec : forall w ops x,
+  nth_opt (fold_left apply_jop ops (border_new w)) (N.to_nat x) =
+  if x <? joined_width w ops
+  then Some (seg_of (joined_above ops x) (joined_below ops x))
+  else None.
+Proof. exact TableProof.border_join_spec. Qed.
+Print Assumptions c05_border_join_spec.
+Theorem c05_border_join_order_irrelevant : forall w ops ops',
+  Permutation ops ops' ->
+  fold_left apply_jop ops (border_new w) = fold_left apply_jop ops' (border_new w).
+Proof. exact TableProof.border_join_comm. Qed.
+Print Assumptions c05_border_join_order_irrelevant.
+(* the rule between a row with cell widths ws1 (above) and one with ws2 (below) shows, at every
+   position, the junction for (bar of the row above here, bar of the row below here) *)
+Theorem c05_border_between_rows : forall ws1 ws2 pb nb x,
+  let tot := sumN ws1 + (N.of_nat (length ws1) - 1) in
+  let mid := snd (join_cols ws1 pb (border_new tot) 0) in
+  let mid' := fst (join_cols ws2 mid nb 0) in
+  nth_opt mid' (N.to_nat x) =
+  if x <? joined_width tot (map JA (bar_positions ws1 0) ++ map JB (bar_positions ws2 0))
+  then Some (seg_of (existsb (N.eqb x) (bar_positions ws1 0)) (existsb (N.eqb x) (bar_positions ws2 0)))
+  else None.
+Proof. exact TableProof.border_between_rows. Qed.
+Print Assumptions c05_border_between_rows.
+(* every line of a row band is exactly as wide as the sum of its cells plus separators, and the
+   j-th bar sits at the j-th bar position, on every line of the band *)
+Theorem c05_row_band_width : forall t draw i sets prev1 next1 prev2 sets2 next2 sets3 pads,
+  sets_exact sets ->
+  collapse_top sets prev1 0 = Ok (prev2, sets2) ->
+  collapse_bottom sets2 next1 0 = (next2, sets3, pads) ->
+  tl_width_raw (row_line t draw i sets3 pads tl_new) =
+  sumN (map fst sets) + (N.of_nat (length sets) - 1).
+Proof. exact TableProof.row_band_width. Qed.
+Print Assumptions c05_row_band_width.
+Theorem c05_row_line_bars : forall t draw i sets pads j x,
+  row_ok i sets pads ->
+  nth_opt (bar_positions (map fst sets) 0) j = Some x ->
+  exists pre post,
+    tl_string (row_line t draw i sets pads tl_new) = pre ++ bar draw :: post /\ swidth pre = x.
+Proof. exact TableProof.row_line_bars. Qed.
+Print Assumptions c05_row_line_bars.
